@@ -288,7 +288,7 @@ LEAF_OPS = ["term", "term", "term", "every", "null", "prefix", "wildcard", "fuzz
 
 
 def rand_query(rng, depth, nletters=2, maxlen=2, scored_only=False, boosts=True, ops=None):
-    b4 = rng.choice([4, 4, 4, 2, 8, 16]) if boosts else 4
+    b4 = rng.choice([4, 4, 4, 2, 8, 16, 4, 4, 4, 2, 8, 16, 0]) if boosts else 4      # (0: a clause that must not count)
     f = rng.choice(TEXT_FIELDS)
     if depth <= 0 or rng.random() < 0.25:
         # (scored_only: the leaves whose score the documentation fixes - multi-term leaves score their boost)
